@@ -16,12 +16,16 @@ import (
 type fileInfo struct {
 	name string
 	dir  bool
+	link bool
 	size int64
 }
 
 func (i fileInfo) Name() string { return i.name }
 func (i fileInfo) Size() int64  { return i.size }
 func (i fileInfo) Mode() fs.FileMode {
+	if i.link {
+		return fs.ModeSymlink | 0o777
+	}
 	if i.dir {
 		return fs.ModeDir | 0o755
 	}
@@ -87,11 +91,29 @@ func Lstat(name string) (FileInfo, error) {
 	if !kern.Active() {
 		return orig.Lstat(name)
 	}
-	r := kern.Call(kern.Req{Op: kern.OpStat, S: VAbs(name)})
+	r := kern.Call(kern.Req{Op: kern.OpStat, S: VAbs(name), A: 1})
 	if r.Status != 0 {
 		return nil, pathErr("lstat", name, r.Status)
 	}
-	return fileInfo{name: base(name), dir: r.A == 1, size: r.B}, nil
+	return fileInfo{name: base(name), dir: r.A == 1, link: r.A == 2, size: r.B}, nil
+}
+
+// Readlink returns the destination of the named symbolic link of the virtual disk.
+func Readlink(name string) (string, error) {
+	if !kern.Active() {
+		return orig.Readlink(name)
+	}
+	r := kern.Call(kern.Req{Op: kern.OpReadlink, S: VAbs(name)})
+	if r.Status != 0 {
+		return "", pathErr("readlink", name, r.Status)
+	}
+	return r.S, nil
+}
+
+// VEvalSymlinks is used by simfilepath.EvalSymlinks.
+func VEvalSymlinks(abs string) (string, int64) {
+	r := kern.Call(kern.Req{Op: kern.OpEvalSymlinks, S: abs})
+	return r.S, r.Status
 }
 
 // Getwd returns the virtual working directory.
